@@ -322,6 +322,8 @@ pub struct Reporter {
     max_samples: usize,
     max_viol_per_sig: u64,
     start: std::time::Instant,
+    /// seed of the case being judged; injected into violation witnesses for replay
+    case_seed: Option<u64>,
 }
 
 impl Reporter {
@@ -338,10 +340,15 @@ impl Reporter {
             max_samples: 3,
             max_viol_per_sig: 3,
             start: std::time::Instant::now(),
+            case_seed: None,
         }
     }
     pub fn eval(&mut self) {
         self.evaluations += 1;
+    }
+    /// Declare the seed of the case that is judged from now on.
+    pub fn case(&mut self, seed: u64) {
+        self.case_seed = Some(seed);
     }
     pub fn evals(&mut self, n: u64) {
         self.evaluations += n;
@@ -379,7 +386,10 @@ impl Reporter {
         self.samples.len() < self.max_samples
     }
     /// Report a violation. `sig` is the stable signature, `witness` everything needed to replay.
-    pub fn violation(&mut self, sig: &str, witness: Value) {
+    pub fn violation(&mut self, sig: &str, mut witness: Value) {
+        if let (Some(seed), Some(obj)) = (self.case_seed, witness.as_object_mut()) {
+            obj.entry("case_seed").or_insert(json!(seed));
+        }
         self.violations += 1;
         let n = self.viol_sigs.entry(sig.to_string()).or_insert(0);
         *n += 1;
